@@ -45,8 +45,14 @@ def setup(args):
     c = verus_runner.canary()
     print("verus canary: %s" % c)
     ok = ok and c.get("ok", False)
-    # 2. Kani: build the crate once and run the Kani canaries
-    obs = [o for o in core.kani_registry() if o.prop == "CANARY"]
+    # 2. Kani: build the crate once (warms /verif/.cache/kani) and run the Kani canaries
+    res, info = kani_runner.run_harnesses(_kani_canaries(), 120, 2)
+    cp, cf = res.get("canary_must_pass"), res.get("canary_must_fail")
+    kok = bool(cp and cp.status == "success" and cf and cf.status == "failed")
+    print("kani canaries: must_pass=%s must_fail=%s" % (cp.status if cp else None, cf.status if cf else None))
+    if not kok:
+        print(info.get("build_error") or "\n".join(info.get("raw_tail", [])))
+    ok = ok and kok
     print("setup done in %.0fs" % (time.time() - t0))
     return 0 if ok else 2
 
